@@ -27,8 +27,8 @@ RULE = ("local-adapter studies: 1-6 steps, chains / fans / funnels / diamonds wi
         "(specification, plan)")
 
 SCRIPT = r'''W=$(pwd)
-echo "S $W" >> {log}
-n=$(grep -c "^S $W\$" {log})
+echo "S $W {name}" >> {log}
+n=$(grep -c "^S $W " {log})
 code=$(awk -v w="$W" -v n="$n" '$1==w && $2==n {{print $3}}' {plan})
 echo "out-$n"
 echo "err-$n" 1>&2
@@ -41,10 +41,12 @@ if [ "${{code:-0}}" = "9" ]; then kill -9 $$; fi
 LAST = ["exit ${code:-0}", "( exit ${code:-0} )", "sh -c \"exit ${code:-0}\""]
 
 
-def gen_study(rng, root):
-    names = rng.sample(["pre", "run", "post", "sim", "ana", "merge"], rng.randint(1, 6))
+def gen_study(rng, root, shared=False):
+    """`shared`: several steps expanded over the same parameter (under --hashws --usetmp their scripts
+    get the same file name)"""
+    names = rng.sample(["pre", "run", "post", "sim", "ana", "merge"], rng.randint(3, 5) if shared else rng.randint(1, 6))
     params = {}
-    if rng.random() < 0.5:
+    if shared or rng.random() < 0.5:
         params["X"] = {"values": rng.choice([[1, 2], [1, 2, 3], ["a", "b"], ["Good morning", "x(1)"],
                                              ["a b", "c&d", "e;f"], ["$HOME", "q'r"]]), "label": "X.%%"}
         if rng.random() < 0.4:
@@ -60,8 +62,8 @@ def gen_study(rng, root):
                 dep.append(p)
             elif r < 0.45 and params:
                 dep.append(p + "_*")
-        cmd = SCRIPT.format(log=log, plan=plan, last=rng.choice(LAST))
-        if params and rng.random() < 0.6:
+        cmd = SCRIPT.format(log=log, plan=plan, last=rng.choice(LAST), name=nm)
+        if params and (shared or rng.random() < 0.6):
             cmd = "# uses $(%s)\n" % rng.choice(list(params)) + cmd
         run = {"cmd": cmd}
         if rng.random() < 0.4:
@@ -84,7 +86,8 @@ def one_study(ctx, k):
     base = os.path.join(ctx.scratch, "cli%d" % k)
     os.makedirs(base, exist_ok=True)
     out = os.path.join(base, "out")
-    spec, log, plan = gen_study(rng, out)
+    shared = k % 10 == 0
+    spec, log, plan = gen_study(rng, out, shared)
     attempts = rng.choice([1, 1, 2, 3])
     spec_path = os.path.join(base, "spec.yaml")
     with open(spec_path, "w") as f:
@@ -94,7 +97,9 @@ def one_study(ctx, k):
     pre = os.path.join(base, "pre")
     spec2 = json.loads(json.dumps(spec))
     spec2["env"]["variables"]["OUTPUT_PATH"] = pre
-    _y, study = SS.load_study(spec2, pre, attempts=attempts)
+    # --hashws names the workspaces (and, with --usetmp, the scripts) after a hash of the combination
+    hashws = shared or rng.random() < 0.3
+    _y, study = SS.load_study(spec2, pre, attempts=attempts, hash_ws=hashws)
     _ser, dag0 = SS.stage_real(study)
     insts = [key for key in dag0.values if key != "_source"]
     rel = {key: os.path.relpath(dag0.values[key].workspace.value, pre) for key in insts}
@@ -118,10 +123,10 @@ def one_study(ctx, k):
     env = dict(os.environ, PYTHONPATH=os.environ.get("PYTHONPATH", ""))
     # --usetmp writes the scripts into one temporary directory; every step must
     # still run in, and leave its captured output in, its own workspace
-    usetmp = rng.random() < 0.3
+    usetmp = shared or rng.random() < 0.3
     p = subprocess.run([sys.executable, os.path.join(VERIF, "harness", "cli_launcher.py"),
                         "run", "-fg", "-y", spec_path, "-o", out, "-s", "1", "--attempts", str(attempts)]
-                       + (["--usetmp"] if usetmp else []),
+                       + (["--usetmp"] if usetmp else []) + (["--hashws"] if hashws else []),
                        stdout=subprocess.PIPE, stderr=subprocess.PIPE, text=True, timeout=600, cwd=base)
     rc = p.returncode
     runlog = open(log_real).read().split("\n") if os.path.exists(log_real) else []
@@ -140,6 +145,9 @@ def one_study(ctx, k):
             if parts[1] not in ws_to_key:
                 mon.append(("own-workspace", "a script ran in %s, which is no instance workspace" % parts[1]))
             starts.append(ws_to_key.get(parts[1], parts[1]))
+            owner = ws_to_key.get(parts[1])
+            if owner is not None and len(parts) > 2 and owner != parts[2] and not owner.startswith(parts[2] + "_"):
+                mon.append(("own-script", "the command of step %s ran in the workspace of %s" % (parts[2], owner)))
         elif parts[0] == "R":
             mon.append(("run-count", "the restart script of %s was run (nothing timed out: every attempt "
                         "of a locally executed step runs the step's own script)" % ws_to_key.get(parts[1], parts[1])))
@@ -225,7 +233,8 @@ def one_study(ctx, k):
         mon.append(("exit-code-decides", "some step failed but maestro exited %d\n%s" % (rc, p.stderr[-300:])))
     data = {"spec_steps": [(s["name"], s["run"].get("depends", []), "restart" in s["run"]) for s in spec["study"]],
             "params": spec.get("global.parameters"), "attempts": attempts,
-            "plan": {"%s#%d" % k_: v for k_, v in plan_map.items()}, "exit_code": rc}
+            "plan": {"%s#%d" % k_: v for k_, v in plan_map.items()}, "exit_code": rc,
+            "usetmp": usetmp, "hashws": hashws}
     c = Case(data, lines_m, None, mon[:4], any(v != 0 for v in plan_map.values()))
     c.impl_final = impl_final
     c.idx = idx
